@@ -417,9 +417,12 @@ pub fn dynamic(prog: &Program, cfg: &Cfg, b: &Binding, diags: &[imp::Diag], stat
                     acts.push(a);
                 } else if let Some(a) = acts.last_mut() {
                     // entered without a call: the entry clobbers the caller-saved registers
+                    // (the clobber is the analyzer's model, not a write by this activation's
+                    // code: what the activation has really written stays written, so that
+                    // 'read before written' means what the machine does)
+                    let written = a.written;
                     let _ = pass(a, e, 0, CALLER_SAVED, &lin, &lout, false);
-                    // the clobber is not a write by this activation's code
-                    a.written &= !CALLER_SAVED;
+                    a.written = written;
                 }
                 let _ = frames;
             }
